@@ -130,6 +130,15 @@ def run(ck):
                "the packing could not be followed bit by bit (unknown parts: %s, duplicated bits: %s)" % (unk, dup)), f.loc())
         small = isinstance(v, tuple) and all(isinstance(e, list) and all(b == 0 for b in e[31:32]) for e in v[1])
         ck.ob("CMP", f.path, "components-below-2^31", small, "bit 31 of every component is zero (checked_harden never refuses them)" if small else "a component can reach 2^31", f.loc())
+    # threshold sharing: the polynomial has degree EXACTLY threshold - 1, i.e. its highest coefficient is sampled non-zero
+    # (with a zero leading coefficient fewer than threshold shares already determine the secret)
+    f = getfn(ck, "rs", CB, CB + "::id::secret_sharing::share")
+    if f:
+        nz = f.calls(r"generate_non_zero[a-z_]*$")
+        pushed = [bi for (bi, t) in f.calls(r"Vec::<T, A>::push$|Vec::<T>::push$") if has_call_origin(f.origins(t["args"][1], deep=True), r"generate_non_zero[a-z_]*$")]
+        ck.ob("CALLEE", f.path, "leading-coefficient-non-zero", len(nz) >= 1 and len(pushed) >= 1,
+              "the highest coefficient comes from generate_non_zero" if nz and pushed else
+              "no coefficient of the sharing polynomial is sampled with generate_non_zero: the degree can drop below threshold - 1", f.loc())
     f = getfn(ck, "rs", "keygen_bls", "keygen_bls::keygen_bls")
     if f:
         enf_calls(ck, f, r"Hkdf::<H, I>::expand$|::expand$", "hkdf expand")
